@@ -382,7 +382,7 @@ def run(env) -> Result:
         if kinds[kind] <= 6 and len(res.violations) < 50:
             res.violations.append(Case("property", what, data))
 
-    for _ in range(60 if tier == "quick" else 1100):
+    for _ in range(60 if tier == "quick" else 800):
         n = rnd.randint(0, 6)
         with_offsets = rnd.random() < 0.4
         for align, compiled in itertools.product((False, True), (False, True)):
